@@ -88,6 +88,13 @@ def Conn.run (max : Nat) : ConnState → List (Nat × SrvEvent) → ConnState
   | c, [] => c
   | c, (sid, e) :: es => Conn.run max (Conn.step max c sid e).1 es
 
+/-- the actions of a whole connection history, each tagged with its stream -/
+def Conn.trace (max : Nat) : ConnState → List (Nat × SrvEvent) → List (Nat × SrvAction)
+  | _, [] => []
+  | c, (sid, e) :: es =>
+    let r := Conn.step max c sid e
+    r.2.map (fun a => (sid, a)) ++ Conn.trace max r.1 es
+
 /-! ### the connection handler loop: what a remote peer can make it see -/
 inductive LoopEvent where
   | uniStream            -- an unsolicited unidirectional stream: logged and dropped
